@@ -55,8 +55,10 @@ def main():
             stats["err"] += 1
             if consistent:
                 viol(f"a consistent linear system is not solved: {rec['status']}", "consistent-linear-not-solved", rec)
-            elif rank < nvar and rec["status"] == "err:DidNotConverge":
-                viol("an inconsistent rank-deficient linear system does not converge", "drift-on-inconsistent-rank-deficient", rec)
+            else:
+                # C04 demands success only of consistent systems; a contradictory system that fails is
+                # outside the statement (the drift behind it is finding F16, reported under C12/C17)
+                stats["inconsistent_not_solved"] = stats.get("inconsistent_not_solved", 0) + 1
             continue
         stats["ok"] += 1
         dev = max(abs(float(xs[i]) - float(rec["final"][i])) for i in range(nvar))
